@@ -319,6 +319,52 @@ def run(pid, tier, seed):
             merged = sorted([((m[0], m[1]), w, j, m[2]) for w, ms in enumerate(allm) for j, m in enumerate(select(ms, a, b))], key=lambda x: (x[0], x[1], x[2]))
             cases.append((Case(fl, argv + argvf, b"".join(x[3] for x in merged), note={"after": a, "before": b, "container": "merge%d" % len(pick)}), None))
 
+        # ---- text logs whose timestamps carry no year (dated from the modification time, walking back over New Year): the
+        #      window selects by the instants so attributed, whether it opens before, on or after a New Year in the file
+        import calendar
+        for yi in range(3 if tier == "quick" else 20):
+            nwr = [1, 2, 0][yi % 3]
+            t_last = calendar.timegm((2024, rng.choice([1, 2, 3]), rng.randrange(1, 28), rng.randrange(24), rng.randrange(60), rng.randrange(60)))
+            n = rng.choice([8, 14, 30])
+            span = nwr * 366 * 86400 + rng.randrange(5, 60) * 86400 if nwr else rng.randrange(2, 20) * 86400
+            step = span // n
+            if step > 300 * 86400:
+                step = 300 * 86400
+            inst = sorted({t_last - k * step - (rng.randrange(0, 3600) if k else 0) for k in range(n)})
+            ymsgs = []
+            for j, t in enumerate(inst):
+                tm = time.gmtime(t)
+                data = b"%s %2d %02d:%02d:%02d host app[%d]: yearless f=%d j=%d\n" % (
+                    calendar.month_abbr[tm.tm_mon].encode(), tm.tm_mday, tm.tm_hour, tm.tm_min, tm.tm_sec, 100 + j, yi, j)
+                ymsgs.append((t, 0, data))
+            yblob = b"".join(m[2] for m in ymsgs)
+            mt_file = inst[-1] + rng.choice([0, 30, 3000])
+            pts = [(t, 0) for t in inst] + [(t + 1, 0) for t in inst[:-1:3]] + [(t - 1, 0) for t in inst[1::3]]
+            ywins = [(a_, None) for a_ in rng.sample(pts, min(len(pts), 5 if tier == "quick" else 12))]
+            ywins += [(None, b_) for b_ in rng.sample(pts, 2)]
+            for _ in range(3 if tier == "quick" else 8):
+                a_, b_ = sorted(rng.sample(pts, 2))
+                ywins.append((a_, b_))
+            for wi, (a, b) in enumerate(ywins):
+                cont = ["plain", "gz", "tar", "plain", "bz2"][(wi + yi) % 5]
+                name = "y%d.log" % yi
+                if cont == "plain":
+                    fl, arg = {name: yblob}, name
+                elif cont == "gz":
+                    fl, arg = {name + ".gz": gen.gz_bytes(yblob, mtime=mt_file)}, name + ".gz"
+                elif cont == "bz2":
+                    fl, arg = {name + ".bz2": gen.bz2_bytes(yblob, 1)}, name + ".bz2"
+                else:
+                    fl, arg = {"y%d.tar" % yi: gen.tar_bytes([(name, yblob)], mtime=mt_file)}, "y%d.tar" % yi
+                argv = ["--color", "never", "--blocksz", str([64, 65536, 256][wi % 3])]
+                if a is not None:
+                    argv += ["-a", gen.fmt_ts(a[0], a[1], None, 0)]
+                if b is not None:
+                    argv += ["-b", gen.fmt_ts(b[0], b[1], None, 0)]
+                exp = b"".join(m[2] for m in select(ymsgs, a, b))
+                cases.append((Case(fl, argv + [arg], exp, note={"after": a, "before": b, "container": "yearless-" + cont, "new_years": nwr},
+                                   mtimes={arg: mt_file}), None))
+
         # ---- the other kinds: an event log with records stored out of time order (windows placed on and around every
         #      inversion), an accounting file not stored chronologically, a journal; every bound in several spellings
         other_runs = 0
